@@ -167,6 +167,8 @@ class BaseValidator(object):
           :py:meth:`cutplace.checks.AbstractCheck.check_at_end` fails.
         """
         if not self._is_closed:
+            # Even if a check fails at the end, closing again must not ask it a second time.
+            self._is_closed = True
             _verif.emit("close_begin", self)
             try:
                 for check_name in self.cid.check_names:
@@ -176,7 +178,6 @@ class BaseValidator(object):
                 _verif.emit("close_end", self, last=locals().get("check_name"))
                 for check in self.cid.check_map.values():
                     check.cleanup()
-            self._is_closed = True
 
 
 class Reader(BaseValidator):
